@@ -158,7 +158,10 @@ def det_worker(args):
                     special = rng.choice(["origin", "repeat"])
                 # whole-number requested times handed over as integers, after a fractional initial time; or plain lists / tuples
                 times_as = None
-                if special is None and rng.random() < 0.3:
+                if special is None and entry_name in ("integrate", "solve_determ", "integrate2") and rng.random() < 0.12:
+                    # a single requested time handed over as a bare number
+                    special, times_as = "single", "scalar"
+                elif special is None and rng.random() < 0.3:
                     if tend >= 2.0 and rng.random() < 0.6:
                         special = "int"
                         times_as = rng.choice(["int-list", "int-array"])
